@@ -57,6 +57,7 @@ def run(tier):
         for p in _drv.PRECS:
             expand.run(chk, 'C06.xpand', prog, p, cfgname)
             expand.moved_block_extent_rule(chk, 'C06.xpand', prog, p, cfgname)
+            expand.reuse_keeps_stack_rule(chk, 'C06.xpand', prog, p, cfgname)
         if n < 4 * 200 or nl < 5:
             raise AnalysisBroken('C06: %d driver leaves / %d sp_preorder leaves, floors 800 / 5' % (n, nl))
         if cfgname == 'tested':
